@@ -89,6 +89,11 @@ func (s *Server) handleConnection(conn net.Conn) {
 		}
 	}
 
+	// The reply ("OK"/"NO", a space and the message) has to fit into a single message
+	// part, otherwise neither the Go client nor the PAM module can decode it.
+	if len(resp.Message) > MaxRequestLength-3 {
+		resp.Message = resp.Message[:MaxRequestLength-3]
+	}
 	resp.Encode(conn) //nolint:errcheck
 }
 
